@@ -284,3 +284,47 @@ Theorem C08_glue_rs_matches_model :
   (forall w a k, Glue.I_overflowing_pow w a k = I_overflowing_pow w a k).
 Proof. exact glue_pow_matches_model. Qed.
 Print Assumptions C08_glue_rs_matches_model.
+(* ---- tie to the source: the pow LOOPS REGENERATED from /repo/src/buint/{overflowing,checked,wrapping}.rs on every run
+   (Generated/Loops.v, tools/rs2v_loops.py; control-flow vocabulary Model/Imp.v) compute exactly the model's functions
+   (which recurse over the binary numeral of the exponent): for N > 0 (`Self::ONE = from_digit(1)` indexes digit 0), an
+   exponent >= 0 (a u32) and an iteration budget of at least log2(exponent) they neither panic nor run out of budget.
+   The multiplications in the loop are calls of the model's U_overflowing_mul / U_checked_mul / U_wrapping_mul. ---- *)
+From Bnum.Model Require Import Imp.
+From Bnum.Generated Require Import Loops.
+From Bnum.Proofs Require Import LoopsTieC08.
+Theorem C08_loops_rs_match_model w :
+  (forall n a e fuel, (0 < n)%nat -> wf w n a -> 0 <= e -> (Z.to_nat (Z.log2 e) <= fuel)%nat ->
+     Loops.overflowing_pow w (Z.of_nat n) fuel a e = Done (U_overflowing_pow w a e)) /\
+  (forall n a e fuel, (0 < n)%nat -> wf w n a -> 0 <= e -> (Z.to_nat (Z.log2 e) <= fuel)%nat ->
+     Loops.checked_pow w (Z.of_nat n) fuel a e = Done (U_checked_pow w a e)) /\
+  (forall n a e fuel, (0 < n)%nat -> wf w n a -> 0 <= e -> (Z.to_nat (Z.log2 e) <= fuel)%nat ->
+     Loops.wrapping_pow w (Z.of_nat n) fuel a e = Done (U_wrapping_pow w a e)).
+Proof. exact (loops_C08_match_model w). Qed.
+Print Assumptions C08_loops_rs_match_model.
+(* ---- the integer logarithms of /repo/src/buint/checked.rs (checked_ilog2, the recursive iilog, checked_ilog10,
+   checked_ilog), regenerated on every run: Loops.iilog and the model's iilog consume their budget in the same way (one
+   unit per nested call) and agree for every budget; the callers agree with the model for every budget covering the
+   loops (N) and the model's ilog_fuel: the model's `Some (Ret o)` is `Done o`, its `Some Panic` (strict `b.mul(b)` in a
+   debug build) is `Panicked`; the model's `None` (own budget too small) is excluded by the theorems above.
+   b.mul(b), q.div(b), k.div_rem_unchecked(b), gt are calls of the model's U_mul, U_div, U_div_rem_unchecked, ucmp. ---- *)
+From Bnum.Proofs Require Import LoopsTieC08b.
+Theorem C08_loops_ilog_rs_match_model dbg w : 1 < w ->
+  (forall n a fuel, wf w n a -> (n <= fuel)%nat ->
+     Loops.checked_ilog2 w (Z.of_nat n) fuel a = Done (U_checked_ilog2 w a)) /\
+  (forall N fuel m b k,
+     Loops.iilog dbg w N fuel m b k =
+     match Pow.iilog fuel dbg w m b k with None => NoFuel | Some Panic => Panicked | Some (Ret r) => Done r end) /\
+  (forall n a fuel, 10 < B w -> (0 < n)%nat -> wf w n a -> (n <= fuel)%nat -> (ilog_fuel w n <= fuel)%nat ->
+     match U_checked_ilog10 dbg w a with
+     | Some (Ret o) => Loops.checked_ilog10 dbg w (Z.of_nat n) fuel a = Done o
+     | Some Panic => Loops.checked_ilog10 dbg w (Z.of_nat n) fuel a = Panicked
+     | None => True
+     end) /\
+  (forall n a base fuel, (0 < n)%nat -> wf w n a -> wf w n base -> (n <= fuel)%nat -> (ilog_fuel w n <= fuel)%nat ->
+     match U_checked_ilog dbg w a base with
+     | Some (Ret o) => Loops.checked_ilog dbg w (Z.of_nat n) fuel a base = Done o
+     | Some Panic => Loops.checked_ilog dbg w (Z.of_nat n) fuel a base = Panicked
+     | None => True
+     end).
+Proof. exact (loops_C08b_match_model dbg w). Qed.
+Print Assumptions C08_loops_ilog_rs_match_model.
